@@ -759,6 +759,10 @@ func makeSlice(fr *frame, instr *ssa.MakeSlice) value {
 	checkSym(lenV, instr.Len.Type(), "len")
 	checkSym(capV, instr.Cap.Type(), "cap")
 	var n, c int64
+	if _, ok := lenV.(*Term); ok && lim.AllocCap < 0 {
+		fr.i.pc.cuts = append(fr.i.pc.cuts, "symbolic allocation size at "+fr.pos()+": only the size obligation is decided")
+		panic(pathAbort{"cut", "symbolic allocation size (alloc_cap<0)"})
+	}
 	if tm, ok := lenV.(*Term); ok {
 		n = int64(fr.i.pc.concretize(tm, lim.AllocCap, "make len at "+fr.pos()).Uint64())
 	} else {
